@@ -60,11 +60,11 @@ def gen_value(rng, pool, ids, allow_group=True, depth=0):
             t = rng.choice(['wg', 'wg', 'nasu', 'mk'])
             n = rng.randint(1, 3)
             members = [rng.choice(pool[t]) for _ in range(n)]
-            return list(members), {'g': [{'o': ids[id(m)], 't': t} for m in members]}
+            return list(members), {'g': [{'o': ids[id(m)], 't': tag(t, m)} for m in members]}
         if kind == 'tcgrp':
             t = rng.choice(['tc', 'utc'])
             members = [rng.choice(pool[t]) for _ in range(rng.randint(1, 2))]
-            return list(members), {'g': [{'o': ids[id(m)], 't': t} for m in members]}
+            return list(members), {'g': [{'o': ids[id(m)], 't': tag(t, m)} for m in members]}
         if kind == 'mixed':
             parts = [gen_value(rng, pool, ids, False) for _ in range(rng.randint(2, 3))]
             return [p[0] for p in parts], {'g': [p[1] for p in parts]}
@@ -77,7 +77,17 @@ def gen_value(rng, pool, ids, allow_group=True, depth=0):
         return [p[0] for p in parts], {'g': [p[1] for p in parts]}
     t = rng.choice(['wg', 'wg', 'nasu', 'tc', 'utc', 'mk', 'mk', 'foreign' if rng.random() < 0.4 else 'wg'])
     o = rng.choice(pool[t])
-    return o, {'o': ids[id(o)], 't': t}
+    return o, {'o': ids[id(o)], 't': tag(t, o)}
+
+
+FOREIGN_TYPES = {}
+
+
+def tag(t, o):
+    """type tag sent to the model: foreign objects of different Python types are different types"""
+    if t != 'foreign':
+        return t
+    return 'foreign:' + str(FOREIGN_TYPES.setdefault(type(o).__name__, len(FOREIGN_TYPES)))
 
 
 def structure(v, ids):
